@@ -415,12 +415,13 @@ def rel_c13(c):
             return out, 0
         base = None
         dup = has_dup_keys(c['doc'])
-        for style, rev in (('flow', False), ('flow', True), ('block', False),
-                           ('block', True)):
+        for style, rev, flavor in (('flow', False, 0), ('flow', True, 0),
+                                   ('block', False, 0), ('block', True, 0),
+                                   ('flow', False, 1), ('flow', False, 2)):
             doc = reverse_maps(c['doc']) if rev else c['doc']
             if rev and dup:
                 continue
-            o = loadreplay.observe(c, style=style, doc=doc)
+            o = loadreplay.observe(c, style=style, doc=doc, flavor=flavor)
             n += 1
             # compared as values (frozensets), never through their repr,
             # whose order is not canonical
@@ -430,7 +431,8 @@ def rel_c13(c):
                 base = (cur, o['text'])
             elif cur != base[0]:
                 out.append(('impl', 'load as %s: %r gives %s but %r gives %s '
-                            '(same document, keys reordered / other style)'
+                            '(same document, keys reordered / other style / '
+                            'other List-Sequence-MutableSequence flavour)'
                             % (json.dumps(c['dt']), base[1], base[0],
                                o['text'], cur), None))
                 break
